@@ -246,9 +246,36 @@ var DecodePushRequestStringV2 = Build(
 func encodeLabels(lbls [][]string) string {
 	arrLbls := make([]string, len(lbls))
 	for i, l := range lbls {
-		arrLbls[i] = fmt.Sprintf("%s:%s", strconv.Quote(l[0]), strconv.Quote(l[1]))
+		arrLbls[i] = fmt.Sprintf("%s:%s", jsonQuote(l[0]), jsonQuote(l[1]))
 	}
 	return fmt.Sprintf("{%s}", strings.Join(arrLbls, ","))
+}
+
+// jsonQuote renders s as a JSON (RFC 8259) string. strconv.Quote is not suitable here: it emits Go
+// escapes such as \a, \v, \x01 or \U0001f600 that JSON parsers reject.
+func jsonQuote(s string) string {
+	const hex = "0123456789abcdef"
+	buf := make([]byte, 0, len(s)+2)
+	buf = append(buf, '"')
+	for i := 0; i < len(s); i++ {
+		c := s[i]
+		switch {
+		case c == '"' || c == '\\':
+			buf = append(buf, '\\', c)
+		case c == '\n':
+			buf = append(buf, '\\', 'n')
+		case c == '\r':
+			buf = append(buf, '\\', 'r')
+		case c == '\t':
+			buf = append(buf, '\\', 't')
+		case c < 0x20:
+			buf = append(buf, '\\', 'u', '0', '0', hex[c>>4], hex[c&0xf])
+		default:
+			buf = append(buf, c)
+		}
+	}
+	buf = append(buf, '"')
+	return string(buf)
 }
 
 func fingerprintLabels(lbls [][]string) uint64 {
